@@ -5,6 +5,7 @@ CONSTANTS
   CTypes = {"default"}
   AEs = {"absent"}
   Pres = {"none"}
+  Resps = {"200"}
   Lens = {0}
   Fill = 97
   MaxOps = 100000
